@@ -51,8 +51,10 @@ public:
         base_array<T> tu = _u | x;
         arr_real tu2 = (_method == LmsType::NLMS) ? abs2(tu) : arr_real{};
 
-        //update delay
-        _u = tu.slice(nx, nx + _len - 1);
+        //update delay (a one-tap filter has none)
+        if (_len > 1) {
+            _u = tu.slice(nx, nx + _len - 1);
+        }
 
         for (int k = 0; k < nx; k++) {
             //y(n) = w.T(n) * u(n)
